@@ -191,22 +191,17 @@ def rule_clients(ctx, prog, eff):
                 ok = okc
                 detail += f"; closure = `{tstr(ct)[:160] if ct else '?'}`; required region.read_volatile_from(caddr, src, len)"
             else:
-                # region.write_all_volatile_to(caddr, dst, len).map(|()| len)
+                # region.write_all_volatile_to(caddr, dst, len).map(|()| len)   ==   region.write_all_volatile_to(..)?; Ok(len)
+                from .. import outcomes
                 okc = False
-                if ct is not None and ct[0] == 'call' and canon(ct[1]).endswith("Result::map"):
-                    inner = unref(ct[2][0])
+                mv = outcomes.map_view(prog, eff, cb)
+                if mv is not None:
+                    inner, payload = mv
                     if inner[0] == 'call' and canon(inner[1]).endswith("Bytes::write_all_volatile_to"):
                         a = [unref(x) for x in inner[2]]
                         _pb, dst = eff.lift(cb, a[2])
                         okc = a[0][:2] == ('param', 5) and a[1][:2] == ('param', 4) and a[3][:2] == ('param', 3) and unref(dst)[:2] == ('param', 3)
-                        clo2 = unref(ct[2][1])
-                        cb2 = prog.by_id.get(clo2[1]) if clo2[0] == 'agg' else None
-                        if cb2:
-                            r2 = cb2.return_terms()
-                            _p2, l2 = eff.lift(cb2, deep_strip(r2[0][1])) if len(r2) == 1 else (None, None)
-                            okc = okc and l2 is not None and unref(l2)[:2] == ('param', 3)
-                        else:
-                            okc = False
+                        okc = okc and unref(payload)[:2] == ('param', 3)
                 ok = okc
                 detail += f"; closure = `{tstr(ct)[:200] if ct else '?'}`; required region.write_all_volatile_to(caddr, dst, len).map(|()| len)"
         ctx.ob("R3.2.client", b.key, ok, b.where(), detail)
